@@ -21,10 +21,14 @@ import c07_tools as tl
 
 ABS_TOL = 2e-4
 REL_TOL = 1e-5
+# the tolerance belongs to float32 inputs (about 1700 / 84 machine epsilons); for any other input
+# dtype it is scaled by eps(dtype) / eps(float32), so float64 scores are held to float64 accuracy
+# (2**-29 of the float32 figures: abs 3.7e-13, rel 1.9e-14) -- never looser than before
+EPS_SCALE = {None: 1.0, "f32": 1.0, "f64": 2.0 ** -29}
 
 
-def close(a, b, exact):
-    """a, b: 'n/d' strings (or '-inf')"""
+def close(a, b, exact, dt=None):
+    """a, b: 'n/d' strings (or '-inf'); dt: the dtype of the scores that went in"""
     if a == b:
         return True
     if a in ("-inf", "inf", "nan") or b in ("-inf", "inf", "nan"):
@@ -32,11 +36,12 @@ def close(a, b, exact):
     fa, fb = Fraction(a), Fraction(b)
     if exact:
         return fa == fb
-    return abs(fa - fb) <= ABS_TOL + REL_TOL * max(abs(fa), abs(fb))
+    k = EPS_SCALE[dt]
+    return abs(fa - fb) <= k * (ABS_TOL + REL_TOL * max(abs(fa), abs(fb)))
 
 
-def all_close(xs, ys, exact):
-    return len(xs) == len(ys) and all(close(x, y, exact) for x, y in zip(xs, ys))
+def all_close(xs, ys, exact, dt=None):
+    return len(xs) == len(ys) and all(close(x, y, exact, dt) for x, y in zip(xs, ys))
 
 
 def dyadic_logp(rng, lo=-24 * 8, hi=0):
@@ -44,8 +49,11 @@ def dyadic_logp(rng, lo=-24 * 8, hi=0):
     return frac_str(Fraction(rng.randint(lo, hi), 8))
 
 
-def rand_logit(rng):
-    return frac_str(Fraction(rng.randint(-4 * 64, 4 * 64), 64))
+MAG_W = [1, 1, 32, 1024]   # magnitude classes of the tolerance streams' raw scores: |x| <= 4, 128, 4096
+
+
+def rand_logit(rng, mag=1):
+    return frac_str(Fraction(rng.randint(-4 * 64, 4 * 64), 64) * mag)
 
 
 def prodl(l):
@@ -217,14 +225,17 @@ class C07(PropertyCheck):
             "NaN, -inf for scores) and the call repeated on the same object: same answer as the first call, the "
             "tensors handed out earlier keep what the caller wrote; every tensor HANDED IN (values of log_prob / "
             "support.check, all functional inputs, the score rows the language model returns) compared with a "
-            "clone afterwards. non-trivial: an eos strictly inside the "
+            "clone afterwards; seq/packed/greedy/advance/walk called with every argument passed and with the "
+            "arguments that have their documented default left out (functional and module); result dtype = "
+            "dtype of the scores; tolerance scaled to the input dtype's eps; score magnitudes <= 4/128/4096 "
+            "(seq, packed, greedy tolerance streams). non-trivial: an eos strictly inside the "
             "tensor / a path that ended before the step limit / >= 1 repeated or blank frame removed; "
             "distinct by the full case")
     assumptions = [
         "log_softmax/softmax are trusted primitives: exact stream replaces log_softmax by the identity "
         "on dyadic values, tolerance stream hands torch's own log_softmax values to the model",
         "torch.multinomial is replaced by a replay of chosen tokens (any token of positive probability)",
-        "float rounding is not modelled; tolerance stream compares with abs 2e-4 + rel 1e-5",
+        "float rounding is not modelled; tolerance stream compares with (abs 2e-4 + rel 1e-5) x eps(input dtype)/eps(float32)",
         "the language model is a table from histories to rows, with a threaded state that is checked",
         "non-finite entries (garbage in ignored regions, -inf of classes that do not count) reach the "
         "implementation; the model gets the same tensor with those entries replaced by a finite filler "
@@ -265,7 +276,9 @@ class C07(PropertyCheck):
         for i in range(n):
             nd = rng.choice([1, 2, 2, 3, 3, 4])
             shape = [rng.choice([0, 1, 2, 2, 3, 3]) for _ in range(nd)]
-            dim = rng.randrange(-nd, nd)
+            # dim = 0 and eos = None are the documented defaults: reached often, so that the calls that
+            # leave default-valued arguments out ("omit") really leave them out
+            dim = 0 if rng.random() < 0.3 else rng.randrange(-nd, nd)
             d = dim % nd
             # V = 0 (no class at all): gather raises as soon as hyp has a cell
             V = rng.choice([1, 2, 3, 4, 1, 2, 3, 4, 1, 2, 3, 4, 0])
@@ -285,8 +298,9 @@ class C07(PropertyCheck):
             toks.append(eos)
             w.append(5)
         hyp = [rng.choices(toks, w)[0] for _ in range(n)]
-        logits = [dyadic_logp(rng) if exact else rand_logit(rng) for _ in range(n * V)]
-        return {"kind": "seq", "shape": shape, "V": V, "dim": dim, "eos": eos, "exact": exact,
+        mag = 1 if exact else rng.choice(MAG_W)
+        logits = [dyadic_logp(rng) if exact else rand_logit(rng, mag) for _ in range(n * V)]
+        return {"kind": "seq", "mag": mag, "omit": rng.random() < 0.5, "shape": shape, "V": V, "dim": dim, "eos": eos, "exact": exact,
                 "hyp": hyp, "logits": logits, "dtype": dtype, "lay_logits": lay[0], "lay_hyp": lay[1],
                 "junk": junk_kinds(rng, n), "ret_edit": rng.choice(tl.EDIT_KINDS)}
 
@@ -304,7 +318,7 @@ class C07(PropertyCheck):
                 is_sorted = all(a >= b for a, b in zip(lens, lens[1:]))
                 for enforce in ([True, False] if is_sorted else [False]):
                     k += 1
-                    dim = [1, 0, -1, -2][k % 4]
+                    dim = [1, 0, -1, -2, 0][k % 5]
                     extra = rng.choice([0, 0, 1])
                     V = rng.choice([1, 2, 3])
                     yield self.mk_packed(rng, lens, enforce, dim, V, extra, exact=(k % 2 == 0),
@@ -331,12 +345,13 @@ class C07(PropertyCheck):
         T = Tm + extra
         toks = list(range(V)) + [-1, V]
         hyp = [[rng.choices(toks, [6] * V + [1, 1])[0] for _ in range(T)] for _ in range(N)]
-        logits = [[[dyadic_logp(rng) if exact else rand_logit(rng) for _ in range(V)]
+        mag = 1 if exact else rng.choice(MAG_W)
+        logits = [[[dyadic_logp(rng) if exact else rand_logit(rng, mag) for _ in range(V)]
                    for _ in range(Tm)] for _ in range(N)]
         junk = junk_kinds(rng, N * Tm)
         if junk is not None:
             junk = [junk[n * Tm:(n + 1) * Tm] for n in range(N)]
-        return {"kind": "packed", "lens": lens, "enforce_sorted": enforce, "dim": dim, "V": V,
+        return {"kind": "packed", "mag": mag, "omit": rng.random() < 0.5, "lens": lens, "enforce_sorted": enforce, "dim": dim, "V": V,
                 "hyp": hyp, "logits": logits, "exact": exact, "dtype": dtype, "lay_data": lay[0],
                 "lay_hyp": lay[1], "eos_arg": eos_arg, "junk": junk, "ret_edit": rng.choice(tl.EDIT_KINDS)}
 
@@ -388,7 +403,7 @@ class C07(PropertyCheck):
                             tabs = lm_tables(rng, V, K, steps, e, exact)
                             draws = [[paths[n][t] for n in range(N)] for t in range(steps)]
                             mut, dj = lm_options(rng, e)
-                            yield {"kind": "walk", "V": V, "N": N, "batched": batched, "eos": eos,
+                            yield {"kind": "walk", "omit": rng.random() < 0.5, "V": V, "N": N, "batched": batched, "eos": eos,
                                    "max_iters": T, "tables": tabs, "default": lm_row(rng, V, exact),
                                    "draws": draws, "exact": exact, "sel": sel,
                                    "dtype": rng.choice(DT_W), "lm_layout": rng.choice(LAY_W),
@@ -413,7 +428,7 @@ class C07(PropertyCheck):
             mode = rng.choice(["full", "short", "mixed"])
             lens = [S if mode == "full" else rng.randrange(0, max(S, 1)) if mode == "short" or rng.random() < 0.5
                     else S for _ in range(N)]
-        return {"kind": "advance", "V": V, "N": N, "S": S, "y_prev": y_prev, "lens": lens,
+        return {"kind": "advance", "omit": rng.random() < 0.5, "V": V, "N": N, "S": S, "y_prev": y_prev, "lens": lens,
                 "lp_t": [[dyadic_logp(rng, -6 * 8, 0) for _ in range(V)] for _ in range(N)],
                 "lp_prev": [dyadic_logp(rng, -20 * 8, 0) for _ in range(N)],
                 "draw": [rng.randrange(V) for _ in range(N)], "bad": bad,
@@ -908,7 +923,8 @@ class C07(PropertyCheck):
             V = rng.choice([1, 2, 3, 4])
             N = rng.choice([1, 1, 2, 3])
             T = rng.choice([0, 1, 2, 3, 4, 5])
-            blank = rng.randrange(-V, V)
+            # -1 / no lens / time-major / logits are the documented defaults (see "omit")
+            blank = -1 if rng.random() < 0.3 else rng.randrange(-V, V)
             stream = ["probs", "logp", "tol"][i % 3]
             yield self.mk_greedy(rng, N, T, V, blank, rng.random() < 0.75, rng.random() < 0.5, stream,
                                  dtype=rng.choice(DT_W), lay=(rng.choice(LAY_W), rng.choice(LAY_W)))
@@ -916,12 +932,13 @@ class C07(PropertyCheck):
     def mk_greedy(self, rng, N, T, V, blank, with_lens, batch_first, stream, dtype="f32",
                   lay=("contig", "contig")):
         frames = []
+        mag = rng.choice(MAG_W) if stream == "tol" else 1
         for n in range(N):
             fr = []
             prev = None
             for t in range(T):
                 if stream == "tol":
-                    row = [rand_logit(rng) for _ in range(V)]
+                    row = [rand_logit(rng, mag) for _ in range(V)]
                 else:
                     if stream == "probs":
                         pool = [Fraction(k, 16) for k in (8, 4, 2, 1, 1, 3)]
@@ -940,7 +957,7 @@ class C07(PropertyCheck):
         junk = junk_kinds(rng, N * T)
         if junk is not None:
             junk = [junk[n * T:(n + 1) * T] for n in range(N)]
-        return {"kind": "greedy", "V": V, "blank": blank, "batch_first": batch_first,
+        return {"kind": "greedy", "mag": mag, "omit": rng.random() < 0.5, "V": V, "blank": blank, "batch_first": batch_first,
                 "stream": stream, "frames": frames, "lens": lens, "T": T, "dtype": dtype,
                 "lay_logits": lay[0], "lay_lens": lay[1], "junk": junk, "ret_edit": rng.choice(tl.EDIT_KINDS)}
 
@@ -986,16 +1003,20 @@ class C07(PropertyCheck):
         l0, h0 = logits.clone(), hyp.clone()
         ctx = tl.identity_log_softmax() if case["exact"] else _null()
         with ctx:
-            out = sequence_log_probs(logits, hyp, case["dim"], case["eos"])
-            mod = SequenceLogProbabilities(case["dim"], case["eos"])
+            # "omit": arguments that have their documented default value are left out (functional and module)
+            om, opt = bool(case.get("omit")), (case["dim"], case["eos"])
+            out = tl.call(sequence_log_probs, "sequence_log_probs", (logits, hyp), opt, om)
+            mod = tl.call(SequenceLogProbabilities, "SequenceLogProbabilities", (), opt, om)
             out2 = mod(logits, hyp)
             obs = {"shape": list(out.shape), "out": [tl.fs(x) for x in out.flatten().tolist()],
-                   "module_same": bool(torch.equal(out, out2))}
+                   "module_same": bool(torch.equal(out, out2)),
+                   "dtypes": [tl.dtype_name(out), tl.dtype_name(out2)]}
             # the caller edits what it was handed back, in place, and asks the same objects again
             o0 = out.clone()
             kept = [(t, tl.scribble(t, ret_kind(case))) for t in (out, out2)]
             obs["again_same"] = bool(tl.same_tensor(mod(logits, hyp), o0)
-                                     and tl.same_tensor(sequence_log_probs(logits, hyp, case["dim"], case["eos"]), o0))
+                                     and tl.same_tensor(tl.call(sequence_log_probs, "sequence_log_probs",
+                                                                (logits, hyp), opt, not om), o0))
             obs["returned_kept"] = all(tl.same_tensor(t, c) for t, c in kept)
         obs["inputs_same"] = bool(tl.same_tensor(l0, logits) and torch.equal(h0, hyp))
         return obs
@@ -1065,22 +1086,26 @@ class C07(PropertyCheck):
         d0, h0 = ps.data.clone(), h.clone()
         ctx = tl.identity_log_softmax() if case["exact"] else _null()
         with ctx:
-            if case.get("eos_arg") is None:
+            # documented: `eos` is ignored when `logits` is a packed sequence
+            om, opt = bool(case.get("omit")), (dim, case.get("eos_arg"))
+            if case.get("eos_arg") is None and not om:
                 out = sequence_log_probs(ps, h, dim)
             else:
-                # documented: `eos` is ignored when `logits` is a packed sequence
-                out = sequence_log_probs(ps, h, dim, case["eos_arg"])
+                out = tl.call(sequence_log_probs, "sequence_log_probs", (ps, h), opt, om)
             # the same sequences as a padded tensor: positions beyond the length are made padding
             Tm = logits.size(1)
             hp = hyp[:, :Tm].clone() if hyp.size(1) >= Tm and hyp.size(0) == logits.size(0) else None
-            padded = None
+            padded = pad_dtype = None
             if hp is not None:
                 hp[torch.arange(Tm).unsqueeze(0) >= lens.unsqueeze(1)] = -1
                 try:
-                    padded = [tl.fs(x) for x in sequence_log_probs(logits, hp, 1, None).tolist()]
+                    pad_out = tl.call(sequence_log_probs, "sequence_log_probs", (logits, hp), (1, None), om)
+                    padded = [tl.fs(x) for x in pad_out.tolist()]
+                    pad_dtype = tl.dtype_name(pad_out)
                 except Exception as ex:  # the padded-tensor path, not the packed one, raised
                     padded = {"error": type(ex).__name__, "message": str(ex)[:160]}
-            obs = {"out": [tl.fs(x) for x in out.tolist()], "padded": padded}
+            obs = {"out": [tl.fs(x) for x in out.tolist()], "padded": padded,
+                   "dtypes": [tl.dtype_name(out)] + ([pad_dtype] if pad_dtype else [])}
             o0 = out.clone()
             kept = tl.scribble(out, ret_kind(case))
             again = sequence_log_probs(ps, h, dim) if case.get("eos_arg") is None else \
@@ -1117,18 +1142,21 @@ class C07(PropertyCheck):
         lm = self.walk_lm(case)
         # a language model may write into the dictionary it is handed: every direct call gets its
         # own dictionary (as the wrapper does with `initial_state.copy()`)
-        walk = RandomWalk(lm, case["eos"])
+        om = bool(case.get("omit"))
+        walk = tl.call(RandomWalk, "RandomWalk", (lm,), (case["eos"],), om)
         log = []
         ctx = (lambda: tl.identity_log_softmax()) if case["exact"] else _null
         with ctx(), tl.replay_multinomial(case["draws"], log):
-            y, lens, lp = walk(init_state(case), N if case["batched"] else None, T)
+            y, lens, lp = tl.call(walk, "RandomWalk.forward", (),
+                                  (init_state(case), N if case["batched"] else None, T), om)
+        lp_dtype = tl.dtype_name(lp)
         shape = [list(y.shape), list(lens.shape), list(lp.shape)]
         if not case["batched"]:
             y, lens, lp = y.unsqueeze(1), lens.unsqueeze(0), lp.unsqueeze(0)
         obs = {"shapes": shape, "rows": y.size(0), "lens": lens.tolist(),
                "y": [y[: int(lens[n]), n].tolist() for n in range(N)],
                "lp": [tl.fs(x) for x in lp.tolist()], "steps": len(log), "walk_eos": walk.eos,
-               "unused_draws": len(case["draws"]) - len(log)}
+               "unused_draws": len(case["draws"]) - len(log), "dtypes": [lp_dtype]}
 
         # what the walk handed back is the caller's: it edits all three tensors in place ...
         first = (y, lens, lp)
@@ -1154,8 +1182,8 @@ class C07(PropertyCheck):
                 obs["seq_lp"] = [tl.fs(x) for x in sequence_log_probs(full, y, 0, walk.eos).tolist()]
                 init = init_state(case)
                 snap = tl.state_snapshot(init or {})
-                dist = SequentialLanguageModelDistribution(walk, N, init, T, validate_args=True,
-                                                           cache_samples=bool(case.get("cache")))
+                dist = tl.call(SequentialLanguageModelDistribution, "SequentialLanguageModelDistribution",
+                               (walk,), (N, init, T, bool(case.get("cache")), True), om)
                 first_y = y.clone()
                 value = y.t().unsqueeze(0)
                 obs["dist_lp_shapes"] = []
@@ -1233,7 +1261,8 @@ class C07(PropertyCheck):
         saved = (lp_t.clone(), lp_prev.clone(), y_prev.clone(), None if lens is None else lens.clone())
         log = []
         with tl.replay_multinomial([case["draw"]], log):
-            y, lp = random_walk_advance(lp_t, lp_prev, y_prev, lens)
+            y, lp = tl.call(random_walk_advance, "random_walk_advance", (lp_t, lp_prev, y_prev), (lens,),
+                            bool(case.get("omit")))
         # both results are the caller's: it edits copies' originals in place (an input must not
         # change with them) and takes the same step again from the same prefix
         first = (y, lp)
@@ -1247,6 +1276,7 @@ class C07(PropertyCheck):
             and (lens is None or torch.equal(saved[3], lens))
         return {"y_shape": list(y.shape), "y": y.tolist(), "lp": [tl.fs(x) for x in lp.tolist()],
                 "lp_shape": list(lp.shape), "draws": len(log), "inputs_same": bool(same),
+                "dtypes": [tl.dtype_name(lp)],
                 "again_same": again_same, "returned_kept": returned_kept}
 
     def req_advance(self, case):
@@ -1630,9 +1660,11 @@ class C07(PropertyCheck):
         is_probs = case["stream"] == "probs"
         ctx = tl.identity_log_softmax() if case["stream"] == "logp" else _null()
         with ctx:
-            mx, paths, out_lens = ctc_greedy_search(x, lens, case["blank"], case["batch_first"], is_probs)
-            mod = CTCGreedySearch(case["blank"], case["batch_first"], is_probs)
-            mx2, paths2, out_lens2 = mod(x, lens)
+            om = bool(case.get("omit"))
+            mx, paths, out_lens = tl.call(ctc_greedy_search, "ctc_greedy_search", (x,),
+                                          (lens, case["blank"], case["batch_first"], is_probs), om)
+            mod = tl.call(CTCGreedySearch, "CTCGreedySearch", (), (case["blank"], case["batch_first"], is_probs), om)
+            mx2, paths2, out_lens2 = mod(x, lens) if not (om and lens is None) else mod(x)
             # the module's answers are edited in place by the caller, then the module is asked again
             first = [t.clone() for t in (mx2, paths2, out_lens2)]
             kept = [(t, tl.scribble(t, ret_kind(case), case["V"])) for t in (mx2, paths2, out_lens2)]
@@ -1649,6 +1681,7 @@ class C07(PropertyCheck):
             paths, paths2 = paths.t(), paths2.t()
         ol = out_lens.tolist()
         return {"score": [tl.fs(v) for v in mx.tolist()], "out_lens": ol, "paths_shape": pshape,
+                "dtypes": [tl.dtype_name(mx), tl.dtype_name(mx2)],
                 "paths": [paths[n, : ol[n]].tolist() for n in range(N)],
                 "module_same": bool(tl.same_tensor(mx, mx2) and torch.equal(out_lens, out_lens2)
                                     and all(torch.equal(paths[n, : ol[n]], paths2[n, : ol[n]]) for n in range(N))),
@@ -1691,6 +1724,19 @@ class C07(PropertyCheck):
                           f"second call", None))
         return fails
 
+    @staticmethod
+    def pred_dtypes(case, impl, what):
+        """scores come back in the dtype the scores went in with (float64 is not silently narrowed)"""
+        exp = case.get("dtype") or "f32"
+        bad = [d for d in impl.get("dtypes", []) if d != exp]
+        return [(f"{what}: scores of dtype {exp} went in, dtype {'/'.join(bad)} came back", None)] if bad else []
+
+    @staticmethod
+    def call_note(case, name, opt):
+        if not case.get("omit"):
+            return ""
+        return f" [called with the default-valued arguments {tl.omitted(name, opt)} left out]"
+
     # ---- seq
     def cmp_seq(self, case, impl, model):
         m = model["model"]
@@ -1701,7 +1747,7 @@ class C07(PropertyCheck):
                                               "implementation returned a value"]
         if self.err(impl):
             return [f"implementation raised {impl['error']}: {impl.get('message')}"]
-        if not all_close(impl["out"], m, case["exact"]):
+        if not all_close(impl["out"], m, case["exact"], case.get("dtype")):
             return [f"impl={impl['out']} model={m}"]
         return []
 
@@ -1725,14 +1771,17 @@ class C07(PropertyCheck):
         exp_shape = case["shape"][:d] + case["shape"][d + 1:]
         if impl["shape"] != exp_shape:
             fails.append((f"result shape {impl['shape']} != {exp_shape}", None))
-        if not all_close(impl["out"], model["spec"], case["exact"]):
+        if not all_close(impl["out"], model["spec"], case["exact"], case.get("dtype")):
             fails.append((f"score {impl['out']} differs from sum over tokens up to the first eos "
                           f"{model['spec']}", None))
         if not impl["module_same"]:
             fails.append(("SequenceLogProbabilities differs from the functional", None))
         if not impl.get("inputs_same", True):
             fails.append(("sequence_log_probs modified its input tensors", None))
+        fails += self.pred_dtypes(case, impl, "sequence_log_probs / SequenceLogProbabilities")
         fails += self.pred_returned(case, impl, "sequence_log_probs / the SequenceLogProbabilities object")
+        note = self.call_note(case, "sequence_log_probs", (case["dim"], case["eos"]))
+        fails = [(w + note, sg) for w, sg in fails]
         return fails
 
     # ---- packed
@@ -1744,7 +1793,7 @@ class C07(PropertyCheck):
             return [] if self.err(impl) else ["model: pack error, implementation returned a value"]
         if self.err(impl):
             return [f"implementation raised {impl['error']}: {impl.get('message')}"]
-        return [] if all_close(impl["out"], m, case["exact"]) else [f"impl={impl['out']} model={m}"]
+        return [] if all_close(impl["out"], m, case["exact"], case.get("dtype")) else [f"impl={impl['out']} model={m}"]
 
     def pred_packed(self, case, impl, model):
         T = len(case["hyp"][0])
@@ -1759,7 +1808,7 @@ class C07(PropertyCheck):
             if rows > 0 and not case["enforce_sorted"]:
                 if self.err(impl):
                     return [(f"{what}: raised {impl['error']}", None)]
-                return [] if all_close(impl["out"], model["spec"], case["exact"]) else [
+                return [] if all_close(impl["out"], model["spec"], case["exact"], case.get("dtype")) else [
                     (f"{what}: {impl['out']} differs from per-sequence sums {model['spec']}", None)]
             if self.err(impl) and impl["error"] in ("RuntimeError", "IndexError"):
                 return []
@@ -1774,16 +1823,19 @@ class C07(PropertyCheck):
         if not all(model["flags"].values()):
             raise RuntimeError(f"internal: hypotheses of C07_packed / C07_packed_seq do not hold on a "
                                f"PackedSequence built by torch: {model['flags']}")
-        if not all_close(impl["out"], model["spec"], case["exact"]):
+        if not all_close(impl["out"], model["spec"], case["exact"], case.get("dtype")):
             fails.append((f"packed score {impl['out']} differs from per-sequence sums {model['spec']}", None))
         if isinstance(impl["padded"], dict):
             fails.append((f"the same sequences as a padded tensor (positions beyond the lengths set to -1): "
                           f"sequence_log_probs raised {impl['padded']}; packed gave {impl['out']}", None))
-        elif impl["padded"] is not None and not all_close(impl["out"], impl["padded"], case["exact"]):
+        elif impl["padded"] is not None and not all_close(impl["out"], impl["padded"], case["exact"], case.get("dtype")):
             fails.append((f"packed {impl['out']} != padded {impl['padded']}", None))
         if not impl.get("inputs_same", True):
             fails.append(("packed sequence_log_probs modified its input tensors", None))
+        fails += self.pred_dtypes(case, impl, "sequence_log_probs (packed, and the same sequences padded)")
         fails += self.pred_returned(case, impl, "packed sequence_log_probs")
+        note = self.call_note(case, "sequence_log_probs", (case["dim"], case.get("eos_arg")))
+        fails = [(w + note, sg) for w, sg in fails]
         return fails
 
     # ---- walk
@@ -1805,9 +1857,9 @@ class C07(PropertyCheck):
         my = [m["y"][n][: m["lens"][n]] for n in range(N)]
         if impl["y"] != my:
             out.append(f"y impl={impl['y']} model={my}")
-        if not all_close(impl["lp"], m["lp"], case["exact"]):
+        if not all_close(impl["lp"], m["lp"], case["exact"], case.get("dtype")):
             out.append(f"log_probs impl={impl['lp']} model={m['lp']}")
-        if isinstance(impl.get("seq_lp"), list) and not all_close(impl["seq_lp"], m["rescored"], case["exact"]):
+        if isinstance(impl.get("seq_lp"), list) and not all_close(impl["seq_lp"], m["rescored"], case["exact"], case.get("dtype")):
             out.append(f"sequence_log_probs of the LM outputs impl={impl['seq_lp']} model={m['rescored']}")
         return out
 
@@ -1835,9 +1887,9 @@ class C07(PropertyCheck):
                       (T is not None and len(path) == T and (e is None or e not in path))
             if not ends_ok:
                 fails.append((f"path {n} does not end at its first eos or the step limit", None))
-        if not all_close(impl["lp"], s["chained"], case["exact"]):
+        if not all_close(impl["lp"], s["chained"], case["exact"], case.get("dtype")):
             fails.append((f"reported log-probabilities {impl['lp']} != chained {s['chained']}", None))
-        if "seq_lp" in impl and not all_close(impl["seq_lp"], s["chained"], case["exact"]):
+        if "seq_lp" in impl and not all_close(impl["seq_lp"], s["chained"], case["exact"], case.get("dtype")):
             fails.append((f"sequence_log_probs on the LM's outputs {impl['seq_lp']} != chained "
                           f"{s['chained']}", None))
         if "dist_lp" in impl:
@@ -1847,8 +1899,11 @@ class C07(PropertyCheck):
                         and "cannot broadcast" in impl["dist_lp"].get("message", ""):
                     sig = "C07.validate_sample.intermediate_length"
                 fails.append((f"log_prob of the walk's own output raised {impl['dist_lp']}", sig))
-            elif not all_close(impl["dist_lp"], s["chained"], case["exact"]):
+            elif not all_close(impl["dist_lp"], s["chained"], case["exact"], case.get("dtype")):
                 fails.append((f"wrapper log_prob {impl['dist_lp']} != chained {s['chained']}", None))
+        if impl.get("steps"):
+            # (a walk of no step never asks the language model: its zero scores have the default dtype)
+            fails += self.pred_dtypes(case, impl, "RandomWalk (log_probs of a language model of that dtype)")
         fails += self.pred_repeated(case, impl, s)
         return fails
 
@@ -1870,7 +1925,7 @@ class C07(PropertyCheck):
                 continue
             if isinstance(impl[key], dict):
                 fails.append((f"{what} raised {impl[key]} {lm_note}", None))
-            elif not all_close(impl[key], s["chained"], case["exact"]):
+            elif not all_close(impl[key], s["chained"], case["exact"], case.get("dtype")):
                 fails.append((f"{what}: {impl[key]} != chained {s['chained']} {lm_note}", None))
         if any(sh != [1, case["N"]] for sh in impl.get("dist_lp_shapes", [])):
             fails.append((f"log_prob of the walk's output as a (1, N, S) value (cache_samples="
@@ -2213,7 +2268,7 @@ class C07(PropertyCheck):
                 if v["shape"] != exp_shape:
                     bad.append(f"has shape {v['shape']}, the value's shape without the event dimension is "
                                f"{exp_shape}")
-                if same_rows and isinstance(r, dict) and not all_close(v["data"], r["data"], case["exact"]):
+                if same_rows and isinstance(r, dict) and not all_close(v["data"], r["data"], case["exact"], case.get("dtype")):
                     bad.append(f"returned {v['data']}, the scores of the value's rows are {r['data']}")
                 fresh = impl["fresh"][i]
                 if cache and "error" not in fresh and not self.call_same(v, fresh, case["exact"]) and not bad:
@@ -2274,6 +2329,7 @@ class C07(PropertyCheck):
         if not impl["inputs_same"]:
             fails.append(("random_walk_advance modified its input tensors (or returned a tensor that shares "
                           "storage with one: the caller edited the results in place)", None))
+        fails += self.pred_dtypes(case, impl, "random_walk_advance")
         fails += self.pred_returned(case, impl, "random_walk_advance (same prefix, same draw)")
         return fails
 
@@ -2304,7 +2360,7 @@ class C07(PropertyCheck):
         out = []
         if m["score"] != model["spec"]["score"] or m["paths"] != model["spec"]["labels"]:
             raise RuntimeError(f"internal: greedy model {m} != spec {model['spec']} (C07_greedy)")
-        if not all_close(impl["score"], m["score"], exact):
+        if not all_close(impl["score"], m["score"], exact, case.get("dtype")):
             out.append(f"score impl={impl['score']} model={m['score']}")
         ties = model["flags"]["tie"]
         for n in range(len(case["frames"])):
@@ -2328,7 +2384,7 @@ class C07(PropertyCheck):
         exp_shape = [N, T] if case["batch_first"] else [T, N]
         if impl["paths_shape"] != exp_shape:
             fails.append((f"paths shape {impl['paths_shape']} != {exp_shape}", None))
-        if not all_close(impl["score"], s["score"], exact):
+        if not all_close(impl["score"], s["score"], exact, case.get("dtype")):
             fails.append((f"score {impl['score']} != sum/product of frame maxima {s['score']}", None))
         for n in range(N):
             if model["flags"]["tie"][n]:
@@ -2341,7 +2397,11 @@ class C07(PropertyCheck):
         if not impl.get("inputs_same", True):
             fails.append(("ctc_greedy_search modified its input tensors (or returned a tensor that shares "
                           "storage with one: the caller edited the results in place)", None))
+        fails += self.pred_dtypes(case, impl, "ctc_greedy_search / CTCGreedySearch")
         fails += self.pred_returned(case, impl, "the CTCGreedySearch object")
+        note = self.call_note(case, "ctc_greedy_search", (case["lens"], case["blank"], case["batch_first"],
+                                                          case["stream"] == "probs"))
+        fails = [(w + note, sg) for w, sg in fails]
         return fails
 
     # ------------------------------------------------------------------ evidence
@@ -2447,6 +2507,24 @@ class C07(PropertyCheck):
 
         if k in ("seq", "packed", "greedy", "advance", "walk", "dist", "sample"):
             t.append(f"{k}.caller_edits_returned_tensors_in_place={ret_kind(case)}")
+        if k in ("seq", "packed", "greedy", "advance", "walk"):
+            name, opt = {
+                "seq": lambda: ("sequence_log_probs", (case["dim"], case["eos"])),
+                "packed": lambda: ("sequence_log_probs", (case["dim"], case.get("eos_arg"))),
+                "greedy": lambda: ("ctc_greedy_search", (case["lens"], case["blank"], case["batch_first"],
+                                                         case["stream"] == "probs")),
+                "advance": lambda: ("random_walk_advance", (case["lens"],)),
+                "walk": lambda: ("RandomWalk.forward", (case.get("sel"), case["N"] if case["batched"] else None,
+                                                        case["max_iters"])),
+            }[k]()
+            if case.get("omit"):
+                left = tl.omitted(name, opt)
+                t.append(f"{k}.call=default-valued optional arguments left out")
+                t += [f"{k}.left_out={nm}" for nm in left] or [f"{k}.left_out=(none had its default)"]
+            else:
+                t.append(f"{k}.call=every argument passed")
+            if k in ("seq", "packed", "greedy"):
+                t.append(f"{k}.score_magnitude<={4 * case.get('mag', 1)}")
         if k in ("dist", "sample") and case["max_iters"] is not None:
             t.append(f"{k}.enumerate_support_calls_edited_in_between=" +
                      "/".join("expanded" if e else "unexpanded" for e in support_calls(case)))
@@ -2574,6 +2652,10 @@ class C07(PropertyCheck):
                 c = dict(case)
                 c["supp_calls"] = case["supp_calls"][:i] + case["supp_calls"][i + 1:]
                 yield c
+        if case.get("omit"):
+            c = dict(case)
+            c["omit"] = False
+            yield c
         if k == "seq":
             yield from self.shrink_seq(case)
         elif k == "walk":
